@@ -254,7 +254,7 @@ def check_case(case):
     d = core.fresh_dir("c04")
     # (the crop's location may itself contain the words the crop's own
     # sub-directories and files are named with)
-    sub = [None, None, "results", "my batches/xyz-result-1"][
+    sub = [None, "run[1]*", "results", "my batches/xyz-result-1"][
         core.pick([case, "dir"], 4)]
     if sub:
         d = os.path.join(d, sub)
